@@ -33,14 +33,21 @@ Proved for the continuous conveyor, for EVERY operation / kernel-event sequence 
   capacity·p1 (`cbelt_exact_travel_when_never_stalled`, via the invariant NS of Proofs/CBeltNever.lean);
   the clock cannot pass a pending travel timer (`cbelt_clock`).
   successive items enter at least item_length/speed apart (`cbelt_spacing`, all pairs, full strength).
+  Arrival order: the arrival log is in time order (`cbelt_arrivals_in_time_order`); an item can be offered before an
+  item that entered earlier only if that earlier item was stopped at least one entry gap (≥ p1) longer
+  (`cbelt_overtake_only_by_longer_stop`, every reachable state, both modes); hence along a run that never stalls items
+  are offered in entry order (`cbelt_order_when_never_stalled`).
 NOT proved for the continuous conveyor (decided only by the lock-step check and the judge rules `order`, `exit-order`,
-  `overlap`): arrival at the exit in entry order.  On an accumulating belt whose items are not slot-aligned the order /
-  no-overlap claim is in doubt as the code stands (known finding KF-D29, Props/C13).  Stated here so that the gap is visible.
+  `overlap`): arrival in entry order for runs WITH stalls (it needs "all items on a non-accumulating belt are stopped
+  together", which is not proved).  On an accumulating belt whose items are not slot-aligned the order / no-overlap
+  claim is in fact false as the code stands (known finding KF-D29, Props/C13).  Stated here so that the gap is visible.
 Domain of the model: every item has the conveyor's item length; an object is put only while it is not on the belt;
 histories in which `_get_belt_pattern` raises are cut there (`gaveUp`; none in the sampled histories after the repairs).
 -/
 import FsVerif.Proofs.SlotBelt3
 import FsVerif.Proofs.CBeltNever
+import FsVerif.Proofs.CBeltArr
+import FsVerif.Proofs.CBeltCfg
 namespace FsVerif.Props.C12
 open FsVerif SlotBelt
 
@@ -179,6 +186,77 @@ def demoFree : List CBelt.Op :=
 example : (∀ k, k ≤ demoFree.length → (CBelt.run (CBelt.init { cap := 3, p1 := 2, acc := true }) (demoFree.take k)).everStalled = false) ∧
     (CBelt.run (CBelt.init { cap := 3, p1 := 2, acc := true }) demoFree).arrivals.map (fun a => (a.q, a.t, a.ti)) = [(0, 6, 0)] ∧
     (CBelt.run (CBelt.init { cap := 3, p1 := 2, acc := true }) demoFree).gotLog.map (·.id) = [5] := by
+  decide +kernel
+
+/-! ### arrival order on the continuous conveyor -/
+
+theorem reachC_as {s : CBelt} (h : ReachC s) : CBelt.AS s := by
+  obtain ⟨cfg, ops, rfl⟩ := h
+  exact CBelt.run_as ops _ (CBelt.init_as cfg)
+
+/-- the arrival log is in time order -/
+theorem cbelt_arrivals_in_time_order {s : CBelt} (h : ReachC s) : s.arrivals.Pairwise (fun a b => a.t ≤ b.t) :=
+  (reachC_as h).sorted
+
+/-- entries that carry a smaller put ordinal entered at least p1 earlier -/
+theorem entered_earlier {l : List CItem} {p1 : Nat} (hs : l.Pairwise (fun a b => a.seq < b.seq))
+    (hp : l.Pairwise (fun a b => a.entry + p1 ≤ b.entry)) :
+    ∀ x ∈ l, ∀ y ∈ l, x.seq < y.seq → x.entry + p1 ≤ y.entry := by
+  induction l with
+  | nil => intro x hx; cases hx
+  | cons z l ih =>
+    rw [List.pairwise_cons] at hs hp
+    intro x hx y hy hxy
+    rcases List.mem_cons.mp hx with rfl | hx'
+    · rcases List.mem_cons.mp hy with rfl | hy'
+      · omega
+      · exact hp.1 y hy'
+    · rcases List.mem_cons.mp hy with rfl | hy'
+      · have := hs.1 x hx'; omega
+      · exact ih hs.2 hp.2 x hx' y hy' hxy
+
+/-- **An item can be overtaken only while it is stopped**: if `a` was offered at the exit before `b` although `b` entered
+    first, then `b`'s total interruption time exceeds `a`'s by at least their entry gap (≥ p1).  Holds in every reachable
+    state, both accumulation modes. -/
+theorem cbelt_overtake_only_by_longer_stop {s : CBelt} (h : ReachC s) :
+    s.arrivals.Pairwise (fun a b => b.q < a.q → a.ti + s.cfg.p1 ≤ b.ti) := by
+  have hso := cbelt_arrivals_in_time_order h
+  have hinv := reachC_inv h
+  have hex := cbelt_travel_exact h
+  refine List.Pairwise.imp_of_mem ?_ hso
+  intro a b ha hb hab hq
+  obtain ⟨ea, hea, ha1, ha2⟩ := hex a ha
+  obtain ⟨eb, heb, hb1, hb2⟩ := hex b hb
+  have := entered_earlier hinv.sp.entSorted hinv.sp.spaced eb heb ea hea (by omega)
+  omega
+
+/-- "Items leave a conveyor in the order in which they entered" — proved for the runs in which nothing is ever stopped
+    (the state machine never enters a STALLED state: the destination takes every item as soon as it is offered): no item is
+    offered at the exit before an item that entered earlier.  (With stalls: `cbelt_overtake_only_by_longer_stop`; the
+    accumulating belt does overtake, KF-D29.) -/
+theorem cbelt_order_when_never_stalled (cfg : CCfg) (ops : List CBelt.Op) (hp : 0 < cfg.p1)
+    (hn : ∀ k, k ≤ ops.length → (CBelt.run (CBelt.init cfg) (ops.take k)).everStalled = false) :
+    (CBelt.run (CBelt.init cfg) ops).arrivals.Pairwise (fun a b => a.q ≤ b.q) := by
+  have hns := CBelt.run_ns ops (CBelt.init cfg) (CBelt.init_ns cfg) hn
+  have hr : ReachC (CBelt.run (CBelt.init cfg) ops) := ⟨cfg, ops, rfl⟩
+  have hc : (CBelt.run (CBelt.init cfg) ops).cfg = cfg := CBelt.run_cfg ops _
+  refine List.Pairwise.imp_of_mem ?_ (cbelt_overtake_only_by_longer_stop hr)
+  intro a b ha hb hab
+  have hza := hns.zeroA a ha
+  have hzb := hns.zeroA b hb
+  rw [hc] at hab
+  by_cases hq : b.q < a.q
+  · have := hab hq; omega
+  · omega
+
+/-- non-vacuity of `cbelt_order_when_never_stalled`: the consumer has reserved twice in advance; item 5 enters at 0, item 6
+    at 2 (one item length later); they are offered at 6 and 8, in order, and the flag is clear after every operation -/
+def demoOrder : List CBelt.Op :=
+  [.reserveGet 1, .reserveGet 1, .reservePut 0, .reservePut 0, .put 0 2 { id := 5 }, .ev, .ev, .adv 2, .ev, .ev,
+   .put 0 3 { id := 6 }] ++ List.replicate 14 .ev
+
+example : (∀ k, k ≤ demoOrder.length → (CBelt.run (CBelt.init { cap := 3, p1 := 2, acc := true }) (demoOrder.take k)).everStalled = false) ∧
+    (CBelt.run (CBelt.init { cap := 3, p1 := 2, acc := true }) demoOrder).arrivals.map (fun a => (a.q, a.t, a.ti)) = [(0, 6, 0), (1, 8, 0)] := by
   decide +kernel
 
 end FsVerif.Props.C12
